@@ -28,6 +28,14 @@ namespace awsim {
     const char* what() const noexcept override { return msg.c_str(); }
   };
 
+  // raised when a layout cannot be read as a value (corrupted index, unsupported node): a well-defined failure
+  // of the *observer*, reported to the driver as class "walk"
+  struct WalkError : public std::exception {
+    std::string msg;
+    explicit WalkError(const std::string& m) : msg(m) { }
+    const char* what() const noexcept override { return msg.c_str(); }
+  };
+
   long put(int kind, const std::shared_ptr<void>& p);
   Obj& obj(long h);   // throws HarnessError on a bad handle (a harness bug, never awkward's)
   void drop(long h);
@@ -57,6 +65,7 @@ namespace awsim {
 #define AWS_CATCH(ret)                                                              \
   }                                                                                 \
   catch (awsim::HarnessError& e)   { awsim::set_error("harness", e.what()); return ret; }          \
+  catch (awsim::WalkError& e)      { awsim::set_error("walk", e.what()); return ret; }             \
   catch (std::invalid_argument& e) { awsim::set_error("invalid_argument", e.what()); return ret; } \
   catch (std::out_of_range& e)     { awsim::set_error("out_of_range", e.what()); return ret; }     \
   catch (std::runtime_error& e)    { awsim::set_error("runtime_error", e.what()); return ret; }    \
